@@ -1049,7 +1049,16 @@ func ruleTileLoop(w *World, r *Report) {
 	case lo.tile == nil:
 		r.add("RANGE-LOOP", fn+" / tile fields", w.Pos(c.Pos()), Undecided, "the range call was not seen to read both the key and the key zoom from one tile")
 	case !outer.isElem(lo.tile):
-		r.add("RANGE-LOOP", fn+" / tile fields", w.Pos(c.Pos()), Violated, "the range call does not read both fields from this iteration's tile")
+		// positive evidence: a fixed element of the request (request[0]) instead of the current one
+		st := Undecided
+		if ld, ok := loadOf(lo.tile); ok {
+			if ia, ok := ld.(*ssa.IndexAddr); ok {
+				if _, isK := constInt(ia.Index); isK {
+					st = Violated
+				}
+			}
+		}
+		r.add("RANGE-LOOP", fn+" / tile fields", w.Pos(c.Pos()), st, "the range call does not recognisably read both fields from this iteration's tile ("+describeValue(lo.tile)+")")
 	default:
 		r.add("RANGE-LOOP", fn+" / tile fields", w.Pos(c.Pos()), Discharged, "the range call reads the key and key zoom of this iteration's tile")
 	}
@@ -1063,18 +1072,18 @@ func ruleTileLoop(w *World, r *Report) {
 		if cmp, ok := ifi.Cond.(*ssa.BinOp); ok && cmp.X == ssa.Value(zphi) {
 			bound := cmp.Y
 			excl := false
-			if cmp.Op == token.LSS {
+			if cmp.Op == token.LSS || cmp.Op == token.NEQ {
 				if a, ok := resolve(cmp.Y).(*ssa.BinOp); ok && a.Op == token.ADD {
 					if k, ok := constInt(a.Y); ok && k == 1 {
 						bound, excl = a.X, true
 					}
 				}
 			}
-			if hi := rangeSource(w, bound); hi != nil {
-				known = true
-				okBound = hi.site == c && hi.idx == 1 && (cmp.Op == token.LEQ || excl)
-			} else if mentions(bound, c, 0) {
-				known = true
+			if hi := rangeSource(w, bound); hi != nil && hi.site == c {
+				okBound = hi.idx == 1 && (cmp.Op == token.LEQ || excl)
+				// positive evidence: the bound is a result of this very conversion and the loop
+				// stops short of the maximum (z < max) or runs to the minimum
+				known = !okBound && ((hi.idx == 1 && cmp.Op == token.LSS && !excl) || hi.idx == 0)
 			}
 		}
 	}
@@ -1121,7 +1130,11 @@ func ruleTileCompose(w *World, r *Report) {
 	if okArgs {
 		r.add("COMPOSE", fn+" / delegation", w.Pos(c.Pos()), Discharged, "extended conversion called with the same four arguments")
 	} else {
-		r.add("COMPOSE", fn+" / delegation", w.Pos(c.Pos()), Violated, "the extended conversion does not receive the four arguments unchanged")
+		st := Discharged
+		for i := 0; i < 4; i++ {
+			st = worst(st, argStatus(c.Call.Args[i], f.Params[i]))
+		}
+		r.add("COMPOSE", fn+" / delegation", w.Pos(c.Pos()), st, "the extended conversion does not receive the four arguments unchanged ("+shortInstr(c)+")")
 	}
 	res := extractOf(c, 0)
 	var loop *sliceRange
@@ -1136,9 +1149,11 @@ func ruleTileCompose(w *World, r *Report) {
 	}
 	hc := callsTo(f, func(x *ssa.Function) bool { return x == h })
 	okLoop := len(hc) == 1 && loop.blocks()[hc[0].Block()]
+	skipped := false
 	if okLoop {
 		if ok, _ := everyIterationPasses(loop, func(x *ssa.Call) bool { return x == hc[0] }, nil); !ok {
 			okLoop = false
+			skipped = true
 		}
 	}
 	// returned list = accumulation of spreads of hc results
@@ -1165,7 +1180,11 @@ func ruleTileCompose(w *World, r *Report) {
 	if okRet {
 		r.add("COMPOSE", fn+" / expansion loop", pos, Discharged, "result = concatenation of the expansion of every extended ID")
 	} else {
-		r.add("COMPOSE", fn+" / expansion loop", pos, Violated, "the result is not the concatenation of ConvertExtendedSpatialIDToSpatialIDs over every extended ID")
+		if skipped {
+			r.add("COMPOSE", fn+" / expansion loop", pos, Violated, "an iteration over the extended IDs can continue without expanding its ID (an extended ID is dropped from the spatial-ID result)")
+		} else {
+			r.add("COMPOSE", fn+" / expansion loop", pos, Undecided, "the result was not recognised as the concatenation of ConvertExtendedSpatialIDToSpatialIDs over every extended ID")
+		}
 	}
 }
 
